@@ -4,6 +4,7 @@ mod container;
 mod conv;
 mod ops;
 mod sexp;
+mod sinkrun;
 mod sinks;
 mod universal;
 
